@@ -277,7 +277,8 @@ static string encodeOutcome(const Outcome& o, uint64_t transitions) {
   string s = o.ok ? "ok\n" : "bad\n";
   s += o.canonBefore + "\n" + o.canon + "\n";
   char b[96];
-  for (int k = 0; k < MAXSLOT; k++) { snprintf(b, sizeof(b), "%d,", o.view[k].present ? o.view[k].prio : -1); s += b; }
+  // per slot: -1 absent, otherwise the requested priority, +100 when a condition on the message was resolved
+  for (int k = 0; k < MAXSLOT; k++) { snprintf(b, sizeof(b), "%d,", o.view[k].present ? o.view[k].prio + (o.view[k].cond ? 100 : 0) : -1); s += b; }
   snprintf(b, sizeof(b), "\n%d%d\n%llu\n%s\n%llu\n", o.heapOk ? 1 : 0, o.structural ? 1 : 0, static_cast<unsigned long long>(o.seqHash), o.startClass.c_str(),
            static_cast<unsigned long long>(transitions));
   s += b;
@@ -299,7 +300,7 @@ static bool decodeOutcome(const string& s, Outcome* o, uint64_t* transitions) {
   o->canon = lines[2];
   int v[MAXSLOT] = {-1, -1, -1, -1};
   sscanf(lines[3].c_str(), "%d,%d,%d,%d", &v[0], &v[1], &v[2], &v[3]);
-  for (int k = 0; k < MAXSLOT; k++) { o->view[k].present = v[k] >= 0; o->view[k].prio = v[k] < 0 ? 0 : v[k]; }
+  for (int k = 0; k < MAXSLOT; k++) { o->view[k].present = v[k] >= 0; o->view[k].cond = v[k] >= 100; o->view[k].prio = v[k] < 0 ? 0 : v[k] % 100; }
   o->heapOk = lines[4].size() > 0 && lines[4][0] == '1';
   o->structural = lines[4].size() > 1 && lines[4][1] == '1';
   o->seqHash = strtoull(lines[5].c_str(), nullptr, 10);
@@ -438,6 +439,7 @@ static vector<Op> enabledOps(const Cfg& cfg, const SlotView* v) {
   o.push_back({'G', 0, 0});
   for (int k = 0; k < cfg.n; k++) if (v[k].present) for (int p : PRIOS) if (p != v[k].prio) o.push_back({'P', k, p});
   for (int k = 0; k < cfg.n; k++) if (v[k].present && v[k].prio > 0) o.push_back({'F', k, 0});
+  if (cfg.cond) for (int k = 0; k < cfg.n; k++) if (v[k].present && !v[k].cond) o.push_back({'R', k, 0});
   for (int k = 0; k < cfg.n; k++) if (!v[k].present) for (int p : PRIOS) o.push_back({'A', k, p});
   for (int k = 0; k < cfg.n; k++) if (v[k].present) o.push_back({'X', k, 0});
   o.push_back({'L', 0, 0});
@@ -686,6 +688,16 @@ static vector<Cfg> configs(int n, const string& set) {
       out.push_back(c);
     }
   }
+  // conditions on poll-world messages, resolved at any point of the history (a definition file loaded later): one message
+  // has no priority of its own; with and without values in the messages
+  for (const string& ip : ips) {
+    if (ip[0] != '0') continue;
+    for (int sl : {-1, 9}) {
+      Cfg c;
+      c.n = n; c.ip = ip; c.dt = 1; c.warm = 0; c.silent = sl; c.cond = true;
+      out.push_back(c);
+    }
+  }
   // the polled devices answer (a value is stored in every selected message) - all of them, or all but one
   for (const string& ip : ips) {
     if (ip.find('0') != string::npos || ip.find('-') != string::npos) continue;
@@ -706,6 +718,7 @@ static bool parseCfg(const std::map<string, string>& m, Cfg* c) {
   c->warm = atoi(get("warm").c_str());
   c->chain = get("chain").empty() ? -1 : atoi(get("chain").c_str());
   c->silent = get("silent").empty() ? -1 : atoi(get("silent").c_str());
+  c->cond = get("cond") == "1";
   if (c->n < 1 || c->n > MAXSLOT || static_cast<int>(c->ip.size()) != c->n || c->dt < 0 || c->warm < 0) return false;
   for (char ch : c->ip) if (ch != '-' && (ch < '0' || ch > '9')) return false;
   return true;
